@@ -3,10 +3,10 @@
 #  1. cherry-pick the fix: commits of branch ws-<name> of /repo onto /repo's main (stops on conflict)
 #  2. merge branch ws-<name> of /verif into main (new files; stops on conflict)
 set -e
-n="$1"; [ -n "$n" ] || { echo usage: merge_ws.sh name; exit 2; }
+n="$1"; base="${2:-main}"; [ -n "$n" ] || { echo usage: merge_ws.sh name; exit 2; }
 echo "== repo commits on ws-$n:"
-git -C /repo log --oneline --reverse main..ws-$n
-for c in $(git -C /repo log --format=%h --reverse main..ws-$n); do
+git -C /repo log --oneline --reverse $base..ws-$n
+for c in $(git -C /repo log --format=%h --reverse $base..ws-$n); do
   msg=$(git -C /repo log -1 --format=%s $c)
   case "$msg" in
     fix:*) echo "cherry-pick $c $msg"; git -C /repo cherry-pick $c
@@ -21,6 +21,12 @@ if ! git -C /verif merge --no-edit ws-$n; then
   for f in $(git -C /verif diff --name-only --diff-filter=U | grep '^evidence/'); do
     git -C /verif checkout --ours "$f"; git -C /verif add "$f"
   done
+  # generated root files: regenerate
+  for f in lean/Driver.lean lean/FrappyDrive.lean lean/FrappyModel.lean lean/FrappyProofs.lean; do
+    if git -C /verif diff --name-only --diff-filter=U | grep -qx "$f"; then git -C /verif checkout --ours "$f"; fi
+  done
+  (cd /verif/harness && PYTHONPATH=.:/repo /venv/bin/python translate.py)
+  git -C /verif add lean/Driver.lean lean/FrappyDrive.lean lean/FrappyModel.lean lean/FrappyProofs.lean lean/FrappyModel/Generated
   git -C /verif diff --name-only --diff-filter=U | grep -q . && { echo "UNRESOLVED CONFLICTS"; exit 1; }
   git -C /verif commit -q --no-edit
 fi
